@@ -223,6 +223,12 @@ func (fr *Frame) callStatic(site ssa.Instruction, f *ssa.Function, args []Val, s
 	}
 	sp := fc.eng.db.Funcs[key]
 	if sp == nil && f.Origin() != nil {
+		if osp := fc.eng.db.Funcs[stripTypeArgs(funcKey(f.Origin()))]; osp != nil {
+			sp = osp
+			key = stripTypeArgs(funcKey(f.Origin()))
+		}
+	}
+	if sp == nil && f.Origin() != nil {
 		// instantiation of a generic function: the contract is written on the generic origin
 		sp = fc.eng.db.Funcs[funcKey(f.Origin())]
 		if sp != nil {
@@ -579,13 +585,20 @@ func (fr *Frame) callFuncValue(site ssa.Instruction, c *ssa.CallCommon, fv Val, 
 	if fvv, ok := c.Value.(*ssa.FreeVar); ok {
 		pname = fvv.Name()
 	}
-	// a captured (by reference) or address-taken function variable: *freevar / *alloc
+	// a captured (by reference) or address-taken function variable: *freevar / *alloc; a function stored in a
+	// struct field: the field's name
 	if u, ok := c.Value.(*ssa.UnOp); ok && u.Op == token.MUL {
 		switch x := u.X.(type) {
 		case *ssa.FreeVar:
 			pname = x.Name()
 		case *ssa.Alloc:
 			pname = x.Comment
+		case *ssa.FieldAddr:
+			if pt, ok := x.X.Type().Underlying().(*types.Pointer); ok {
+				if stt, ok := pt.Elem().Underlying().(*types.Struct); ok {
+					pname = stt.Field(x.Field).Name()
+				}
+			}
 		}
 	}
 	var spec *Clause
@@ -855,7 +868,18 @@ func (fr *Frame) callBuiltin(site ssa.Instruction, b *ssa.Builtin, c *ssa.CallCo
 		}
 		return []Val{scalar(NilIface)}
 	case "close":
-		fc.note("close(chan) modelled as no-op")
+		// closing a channel: ghost counter chclosed(ch) (declared on demand); closing a nil channel or one that is
+		// already closed panics
+		ch := args[0].T
+		fc.oblige(st, "nil", fr.path, Ne(ch, IntLit(0)), fr.pos(site), "close of nil channel")
+		if _, declared := fc.eng.db.Ghosts["chclosed"]; declared {
+			fr.checkWrite(st, site, locItem{kind: "ghost", ghost: "gmap:chclosed"}, "close(chan)")
+			arr := fc.ghostMapIn(st, "chclosed", []*Term{ch})
+			fc.oblige(st, "chan-close", fr.path, Eq(Select(arr, ch), IntLit(0)), fr.pos(site), "close of a channel that is already closed (panics)")
+			st.ghosts["gmap:chclosed"] = fc.sc.Define("gmap", Store(arr, ch, Add(Select(arr, ch), IntLit(1))))
+		} else {
+			fc.note("close(chan): double close not checked (no `ghost chclosed(mathint)` declared)")
+		}
 		return nil
 	case "print", "println":
 		return nil
